@@ -3178,3 +3178,28 @@ mod tests {
         Manager::new()
     }
 }
+
+//------------ verification hooks (feature `verif-hooks`, add-only) ----------
+
+#[cfg(feature = "verif-hooks")]
+impl Component {
+    /// A component with the given name and ingress register and no HTTP
+    /// client / metrics collection (what `Default` gives under cfg(test),
+    /// but with a chosen name and register).
+    pub fn verif_new(
+        name: &str,
+        type_name: &'static str,
+        ingresses: Arc<ingress::Register>,
+    ) -> Self {
+        Component {
+            name: name.into(),
+            type_name,
+            http_client: None,
+            metrics: None,
+            http_resources: Default::default(),
+            roto_compiled: None,
+            tracer: Default::default(),
+            ingresses,
+        }
+    }
+}
